@@ -849,7 +849,9 @@ pub fn run_one(scn: u64, s: &Sched) -> OneResult {
     emit(
         "Reset",
         json!({"id": s.id, "limit": st.limit, "respBuf": cfg_u64(&s.cfg, "respBuf", 1),
-               "mode": cfg_str(&s.cfg, "mode", "always"), "cap": cfg_u64(&s.cfg, "cap", 1)}),
+               "mode": cfg_str(&s.cfg, "mode", "always"), "cap": cfg_u64(&s.cfg, "cap", 1),
+               "open": s.cfg.get("open").and_then(|v| v.as_bool()).unwrap_or(true),
+               "credits": cfg_u64(&s.cfg, "credits", 0)}),
     );
     st.steps = s.steps.clone();
     st.expect = s.expect.clone();
